@@ -124,15 +124,16 @@ def sig_coq(sg):
 
 def first_param(c):
   shape = c.get('shape', 'fn')
-  return None if shape == 'fn' else ('self' if shape.endswith('init') else 'cls')
+  return None if shape in ('fn', 'wrapped_fn') else ('self' if (shape.endswith('init') or shape == 'method') else 'cls')
 
 
 def cfg_coq(c):
   fp = first_param(c)
+  is_method = c.get('shape') == 'method'
   if fp:
     c = dict(c, sig=dict(c['sig'], args=[fp] + list(c['sig']['args'])), shape='fn')
-  return ('{| c_sel := %s; c_kind := KProbe; c_sig := %s; c_allow := %s; c_deny := %s; c_method := false |}' % (
-      C.cstr(c['sel']), sig_coq(c['sig']), C.cstrs(c.get('allow') or []), C.cstrs(c.get('deny') or [])))
+  return ('{| c_sel := %s; c_kind := KProbe; c_sig := %s; c_allow := %s; c_deny := %s; c_method := %s |}' % (
+      C.cstr(c['sel']), sig_coq(c['sig']), C.cstrs(c.get('allow') or []), C.cstrs(c.get('deny') or []), C.cbool(is_method)))
 
 
 def scope_arg_coq(a):
@@ -154,7 +155,7 @@ SHAPES = {}
 
 def op_coq(op):
   k = op[0]
-  if k in ('call', 'callvia') and SHAPES.get(op[1].split('/')[-1], 'fn') != 'fn':
+  if k in ('call', 'callvia') and SHAPES.get(op[1].split('/')[-1], 'fn') not in ('fn', 'wrapped_fn'):
     op = [k, op[1], [['obj', 'self']] + list(op[2]), op[3]]
   if k == 'bind':
     return '(OBind %s %s)' % (C.cstr(op[1]), val_coq(op[2]))
@@ -237,6 +238,7 @@ class Machine:
     self.log = []        # (sel, scope, env, n)
     self.counter = 0
     self.wrappers = {}
+    self.instances = {}
     self.mutate = mutate
     self.trace = []
     self.calls = []      # per top-level/inner 'call' op: context for the P_impl predicates
@@ -301,20 +303,16 @@ class Machine:
     raise ValueError(v)
 
   # -- probes
-  def make_probe(self, c):
-    sg, sel = c['sig'], c['sel']
-    shape = c.get('shape', 'fn')
-    name = sel.split('.')[-1]
-    env = {'gv_rec': self._record, 'gv_sel': sel}
-    dflts = []
-    params = []
+  def _params(self, sg, env, tag):
+    """parameter list text of a probe with signature sg; default objects go into env under names unique to tag"""
+    dflts, params = [], []
     nd = len(sg['defaults'])
     na = len(sg['args'])
     for i, a in enumerate(sg['args']):
       if i >= na - nd:
-        env['gv_d%d' % i] = self.plain(sg['defaults'][i - (na - nd)])
-        dflts.append(env['gv_d%d' % i])
-        params.append('%s=gv_d%d' % (a, i))
+        env['gv_d%s%d' % (tag, i)] = self.plain(sg['defaults'][i - (na - nd)])
+        dflts.append(env['gv_d%s%d' % (tag, i)])
+        params.append('%s=gv_d%s%d' % (a, tag, i))
       else:
         params.append(a)
     if sg['varargs']:
@@ -325,23 +323,48 @@ class Machine:
       if d is None:
         params.append(n)
       else:
-        env['gv_k%d' % j] = self.plain(d)
-        dflts.append(env['gv_k%d' % j])
-        params.append('%s=gv_k%d' % (n, j))
+        env['gv_k%s%d' % (tag, j)] = self.plain(d)
+        dflts.append(env['gv_k%s%d' % (tag, j)])
+        params.append('%s=gv_k%s%d' % (n, tag, j))
     if sg['varkw']:
       params.append('**_kw')
+    return params, dflts
+
+  def make_probe(self, c, methods=()):
+    sg, sel = c['sig'], c['sel']
+    shape = c.get('shape', 'fn')
+    name = sel.split('.')[-1]
+    env = {'gv_rec': self._record, 'gv_sel': sel}
+    params, dflts = self._params(sg, env, '')
     env['gv_dflts'] = dflts
     if shape == 'fn':
       src = 'def %s(%s):\n  return gv_rec(gv_sel, locals(), gv_dflts)\n' % (name, ', '.join(params))
+    elif shape == 'wrapped_fn':
+      # the registered object is a pass-through decorator (functools.wraps) around the function with the real signature
+      src = ('def gv_inner_%s(%s):\n  return gv_rec(gv_sel, locals(), gv_dflts)\n'
+             'import functools\n@functools.wraps(gv_inner_%s)\ndef %s(*args, **kwargs):\n  return gv_inner_%s(*args, **kwargs)\n'
+             '%s.__name__ = %r\n' % (name, ', '.join(params), name, name, name, name, name))
     elif shape.endswith('init'):
       src = ('class %s(object):\n  def __init__(%s):\n    self._gin_ret = gv_rec(gv_sel, locals(), gv_dflts)\n' %
              (name, ', '.join(['self'] + params)))
+      for mi, mc in enumerate(methods):
+        # a method registered on its own (@gin.register inside the class body), before the class itself is registered
+        mp, md = self._params(mc['sig'], env, 'm%d_' % mi)
+        env['gv_msel%d' % mi] = mc['sel']
+        env['gv_mdflts%d' % mi] = md
+        env['gv_reg%d' % mi] = self.gin.register(allowlist=mc.get('allow') or None, denylist=mc.get('deny') or None)
+        src += ('  @gv_reg%d\n  def %s(%s):\n    return gv_rec(gv_msel%d, locals(), gv_mdflts%d)\n' %
+                (mi, mc['sel'].split('.')[-1], ', '.join(['self'] + mp), mi, mi))
     else:   # constructed by __new__ only
       src = ('class %s(object):\n  def __new__(%s):\n    gv_l = dict(locals())\n    gv_o = object.__new__(cls)\n'
              '    gv_o._gin_ret = gv_rec(gv_sel, gv_l, gv_dflts)\n    return gv_o\n' % (name, ', '.join(['cls'] + params)))
+    if methods:
+      self.nmod = getattr(self, 'nmod', 0) + 1
+      env['__name__'] = 'gvmod%d' % self.nmod      # class and methods must share a module to count as methods
     exec(compile(src, '<probe %s>' % sel, 'exec'), env)  # pylint: disable=exec-used
     fn = env[name]
-    fn.__module__ = None
+    if not methods:
+      fn.__module__ = None
     return fn, name
 
   def _mutate(self, x):
@@ -379,12 +402,22 @@ class Machine:
     return Ret(sel, n)
 
   def register(self, c):
-    fn, name = self.make_probe(c)
     shape = c.get('shape', 'fn')
+    if shape == 'method':
+      return None            # registered together with its class (the holder)
+    methods = [m for m in getattr(self, 'case_regs', []) if m.get('shape') == 'method' and m.get('holder') == c['sel']]
+    fn, name = self.make_probe(c, methods)
     parts = c['sel'].split('.')
     module = '.'.join(parts[:-1]) or None
     kw = dict(module=module, allowlist=c.get('allow') or None, denylist=c.get('deny') or None)
-    if shape.startswith('ext'):
+    if methods:
+      self.gin.register(name, **kw)(fn)
+      w = self.gin.get_configurable(fn)
+      inst = object.__new__(w)                    # an instance of the configurable class, built without running __init__
+      for m in methods:
+        self.wrappers[m['sel']] = getattr(inst, m['sel'].split('.')[-1])
+        self.instances[m['sel']] = inst
+    elif shape.startswith('ext'):
       w = self.gin.external_configurable(fn, name, **kw)
     else:
       w = self.gin.configurable(name, **kw)(fn)
@@ -462,7 +495,9 @@ class Machine:
       self.emit(self.canon(r))
     elif k == 'callvia':
       fn = gin.get_configurable(op[1])
-      r = fn(*[self.val(a) for a in op[2]], **{kk: self.val(v) for kk, v in op[3]})
+      inst = self.instances.get(op[1].split('/')[-1])
+      pre = [inst] if inst is not None else []        # a method handle is the plain function: self is passed explicitly
+      r = fn(*(pre + [self.val(a) for a in op[2]]), **{kk: self.val(v) for kk, v in op[3]})
       self.emit(self.canon(r))
     elif k == 'with':
       arg = op[1]
@@ -527,6 +562,7 @@ class Machine:
       raise AssertionError(op)
 
   def run(self, case):
+    self.case_regs = case['regs']
     for c in case['regs']:
       try:
         self.register(c)
@@ -568,8 +604,9 @@ def shrink_case(case):
   for ops in shrink_ops(case['ops']):
     yield {'regs': case['regs'], 'ops': ops}
   used = {o[1] for o in flatten_ops(case['ops']) if o[0] == 'call'}
+  holders = {c.get('holder') for c in case['regs'] if c.get('shape') == 'method'}
   for i in range(len(case['regs'])):
-    if case['regs'][i]['sel'] not in used:
+    if case['regs'][i]['sel'] not in used and case['regs'][i]['sel'] not in holders:     # a method needs its class
       yield {'regs': case['regs'][:i] + case['regs'][i + 1:], 'ops': case['ops']}
 
 
@@ -625,7 +662,7 @@ def sig_names(sg):
 SHAPE_CHOICES = ['fn', 'fn', 'fn', 'cls_init', 'cls_new', 'ext_init', 'ext_new']
 
 
-def gen_regs(rng, n=None, lists=0.3, allow_req=True, rich=True, sels=None, shapes=False):
+def gen_regs(rng, n=None, lists=0.3, allow_req=True, rich=True, sels=None, shapes=False, methods=0):
   sels = rng.sample(sels or SELS, n or rng.randint(1, 4))
   regs = []
   for sel in sels:
@@ -643,6 +680,20 @@ def gen_regs(rng, n=None, lists=0.3, allow_req=True, rich=True, sels=None, shape
     if any(r in c['deny'] for r in reqd) or (c['allow'] and any(r not in c['allow'] for r in reqd)):
       c['allow'], c['deny'] = [], []
     regs.append(c)
+  if methods and rng.random() < methods:
+    # a class (a cls_init probe) with one or two methods registered on their own before the class is
+    holder = rng.choice(['m.Kls', 'pkg.Kls', 'n.m.Other'])
+    if all(c['sel'] != holder for c in regs):
+      regs.append({'sel': holder, 'sig': gen_sig(rng, allow_req, rich), 'allow': [], 'deny': [], 'shape': 'cls_init'})
+      for mname in rng.sample(['run', 'go'], rng.randint(1, 2)):
+        sg = gen_sig(rng, allow_req, rich)
+        m = {'sel': holder + '.' + mname, 'sig': sg, 'allow': [], 'deny': [], 'shape': 'method', 'holder': holder}
+        names = sig_names(sg)
+        reqd = [a for a, d in zip(sg['args'][len(sg['args']) - len(sg['defaults']):], sg['defaults']) if d == ['req']]
+        reqd += [n for n, d in sg['kwonly'] if d == ['req']]
+        if names and rng.random() < lists and not reqd:
+          m['allow' if rng.random() < 0.5 else 'deny'] = rng.sample(names, rng.randint(1, len(names)))
+        regs.append(m)
   return regs
 
 
